@@ -64,8 +64,21 @@ EndVerdict ==
   IF \A c \in LawCells : \E k \in 1..Len(TLog) : TLog[k].kind = "law" /\ TLog[k].cell = c
   THEN "ok" ELSE "PLAN:planned-cell-not-measured"
 
+(* C35: one random grid of a planned cell; pts[k] = <<k4, resid_e>> per inversion node *)
+MellinVerdict(r) ==
+  IF r.cell \notin C35Cells THEN "PLAN:unplanned-cell"
+  ELSE IF Len(r.pts) = 0 THEN "TRACE:no-inversion-points"
+  ELSE IF \E k \in 1..Len(r.pts) : C35PointVerdict(r.pts[k]) = "fail" THEN "C35:inverse-at-nodes"
+  ELSE IF \A k \in 1..Len(r.pts) : C35PointVerdict(r.pts[k]) = "unresolved" THEN "UNRESOLVED"
+  ELSE "ok"
+End35Verdict ==
+  IF \A c \in C35Cells : \E k \in 1..Len(TLog) : TLog[k].kind = "mellin" /\ TLog[k].cell = c
+  THEN "ok" ELSE "PLAN:planned-cell-not-measured"
+
 Verdict(r) ==
   IF r.kind = "probe" THEN ProbeVerdict(r)
+  ELSE IF r.kind = "mellin" THEN MellinVerdict(r)
+  ELSE IF r.kind = "end35" THEN End35Verdict
   ELSE IF r.kind = "law" THEN LawRecVerdict(r)
   ELSE IF r.kind = "end" THEN EndVerdict
   ELSE "TRACE:unknown-record"
